@@ -3,6 +3,7 @@
    equivalence of the backends is then equality of two runs of the same function.  What needs an argument is the two
    places where the implementations compute differently. *)
 From VZ Require Import Base.Prelude Model.Service Proofs.ServiceP Proofs.ReachP.
+From VZ Require Model.RamShape Gen.RamShapes.
 
 (* RAM: next operation number = len(ops)+1.  SQL: max(operation_number)+1.  Equal for operations numbered 1..k *)
 Theorem C07_operation_numbering_agrees : forall l, numbered_from 1 l ->
@@ -37,3 +38,15 @@ Theorem C07_recreate_is_fresh :
   end = true.
 Proof. vm_compute. reflexivity. Qed.
 Print Assumptions C07_recreate_is_fresh.
+
+(* THE RAM DATASTORE'S SOURCE AGREES WITH THE MODEL'S PRIMITIVES.  Gen/RamShapes.v is regenerated at every run from
+   ram_datastore.py: for each of the 20 DataStore methods whether its dict lookups are wrapped into NotFoundError, whether
+   an insertion is guarded by AlreadyExistsError, whether a missing trial is refused before the store, whether it works
+   under the datastore lock and whether it copies what it returns and what it stores.  Checked in the kernel against `exec`
+   evaluated on a state where nothing exists, where only the study exists and where everything addressed exists: the error
+   class (or success) of every primitive in each of the three situations is what the source's structure gives; every
+   method is locked and alias-free (so that a pure function of the stored state can be its model); update_metadata checks
+   every trial before it writes. *)
+Theorem C07_ram_source_agrees_with_the_model_primitives : RamShape.ram_table_ok RamShapes.ram_shapes = true.
+Proof. vm_compute. reflexivity. Qed.
+Print Assumptions C07_ram_source_agrees_with_the_model_primitives.
